@@ -1,6 +1,6 @@
 ------------------------------ MODULE ReuseGen ------------------------------
 (* Flow G for C13: every history up to length D over the operation alphabet of one object kind. *)
-(* Kinds: shaper (HarfbuzzShaper + faces of a variable and a static font), face (variation /     *)
+(* Kinds: shaper (HarfbuzzShaper + faces of a variable, a static and an alternates-rich font, feature values), face (variation /     *)
 (* ppem changes and glyph queries), wrap (LineWrapper), split (shaping.Segmenter), seg            *)
 (* (segmenter.Segmenter). The meaning of the symbolic arguments is fixed in the Go driver.        *)
 EXTENDS Integers, Sequences, TLC, Json
@@ -8,11 +8,12 @@ CONSTANTS D, Kind
 VARIABLE hist
 Ops ==
   CASE Kind = "shaper" ->
-         { [op |-> "Shape", face |-> f, text |-> t] : f \in {"V1", "V2", "S1"}, t \in {1, 2} }
+         { [op |-> "Shape", face |-> f, text |-> t, feat |-> 0] : f \in {"V1", "V2", "S1"}, t \in {1, 2} }
+         \cup { [op |-> "Shape", face |-> "A1", text |-> 3, feat |-> x] : x \in {0, 1, 2} }
          \cup { [op |-> "SetFontCacheSize", k |-> k] : k \in {0, 1} }
          \cup { [op |-> "SetVariations", face |-> "V1", w |-> w] : w \in {400, 900} }
     [] Kind = "face" ->
-         { [op |-> "SetVariations", w |-> w] : w \in {400, 900} } \cup { [op |-> "SetPpem", k |-> k] : k \in {0, 20} }
+         { [op |-> "SetVariations", w |-> w] : w \in {0, 400, 900} } \cup { [op |-> "SetPpem", k |-> k] : k \in {0, 20} }
          \cup { [op |-> "Extents", g |-> g] : g \in {5, 40} } \cup { [op |-> "Advance", g |-> g] : g \in {5, 40} }
     [] Kind = "wrap" ->
          { [op |-> "WrapParagraph", para |-> p, w |-> w] : p \in {1, 2, 3}, w \in {3, 5} }
